@@ -60,14 +60,17 @@ func SpecReplyTruth(reply interface{}) bool { panic("abstract spec function") }
 
 //@ func rdb.Parser.Type(self) (t)
 //@   trusted frame (pure accessor)
+//@   ensures stable: t == rdb.SpecObjType(self)
 //@ func rdb.Parser.ValueDumpSize(self) (n)
 //@   trusted frame (pure accessor)
 //@ func rdb.Parser.IsSplited(self) (b)
 //@   trusted frame (pure accessor)
+//@   ensures stable: b == rdb.SpecSplit(self)
 //@ func rdb.BinEntry.CanRestore(self) (b)
 //@   trusted frame (pure accessor)
 //@ func rdb.BinEntry.FirstBin(self) (b)
 //@   trusted frame (pure accessor)
+//@   ensures stable: b == rdb.SpecFirstBin(self)
 //@ func rdb.BinEntry.DumpValue(self) (v)
 //@   trusted frame (serialises the value into a fresh buffer)
 //@ func util.VersionGE(a, b, level) (r)
@@ -108,6 +111,9 @@ func SpecReplyTruth(reply interface{}) bool { panic("abstract spec function") }
 //@   modifies heap
 //@   assert at call Send: value_is_written_to_the_key_the_policy_examined: SpecNativeKeyIndex(cmd) < len(args) ==> args[SpecNativeKeyIndex(cmd)] == dyn(e.Key)
 
+// skips: the replay remembers that the value of this key is being ignored (policy "ignore")
+//@ pred skips(rr, key): rr.skippedKey != nil && len(rr.skippedKey) == len(key) && forall i int :: 0 <= i && i < len(key) ==> rr.skippedKey[i] == key[i]
+
 //@ func body:RdbReplay.Replay
 //@   arith int
 //@   properties C20
@@ -124,6 +130,8 @@ func SpecReplyTruth(reply interface{}) bool { panic("abstract spec function") }
 //@   ensures error_stops_before_writing: probed == 1 && rr.KeyExists == "error" ==> err != nil && expanded == old(expanded) && nDel == old(nDel) && nPexpire == old(nPexpire)
 //@   ensures replace_deletes_first: probed == 1 && rr.KeyExists == "replace" && err == nil ==> nDel == old(nDel) + 1 && expanded == old(expanded) + 1
 //@   ensures absent_key_is_written: probed == 0 && err == nil ==> expanded == old(expanded) + 1 && nDel == old(nDel)
+//@   ensures an_ignored_value_is_remembered_for_its_other_chunks: probed == 1 && rr.KeyExists == "ignore" ==> skips(rr, e.Key)
+//@   ensures the_other_chunks_of_an_ignored_value_are_skipped: old(!rdb.SpecFirstBin(e) && rdb.SpecSplit(e.ObjectParser) && rdb.SpecObjType(e.ObjectParser) != rdb.RdbObjectFunction && rdb.SpecObjType(e.ObjectParser) != rdb.RdbObjectAux && rdb.SpecObjType(e.ObjectParser) != rdb.RdbObjectModule && skips(rr, e.Key)) ==> err == nil && expanded == old(expanded) && reqs == old(reqs)
 //@   assert at call Do: policy_requests_address_the_entrys_key: len(args) > 0 && (cmd == "exists" || cmd == "del" || cmd == "pexpire" || cmd == "restore") ==> args[0] == dyn(e.Key)
 //@   assert at call restoreBigRdbEntry: native_fallback_after_a_refused_replace_deletes_the_old_value_first: probed == 0 - 1 && reqs >= old(reqs) + 2 ==> nDel == old(nDel) + 1
 //@   ensures native_fallback_applies_the_expiry: err == nil && probed == 0 - 1 && expanded == old(expanded) + 1 && old(e.ExpireAt) != 0 ==> nPexpire == old(nPexpire) + 1
